@@ -120,7 +120,9 @@ func evalC16(c C16Case) *h.Finding {
 				f = h.F("c16-second-close-exchange", "%s: a second Close caused another server reply", desc)
 				return
 			}
-			// the connection is still usable and in step
+			// the connection is still usable and in step - also a long while later (longer than any of the client's
+			// timeouts: no deadline armed for the transfer may linger)
+			time.Sleep(13 * time.Minute)
 			if err := cl.Noop(); err != nil {
 				f = h.F("c16-out-of-step", "%s: Noop after the transfer failed: %v", desc, err)
 				return
@@ -204,7 +206,88 @@ func evalC16(c C16Case) *h.Finding {
 	return nil
 }
 
-func init() { h.RegisterReplayer("c16", evalC16) }
+// ---- long sessions ---------------------------------------------------------------------------------------
+
+// C16LongCase: many messages with many recipients over ONE connection - far more octets in both directions than any
+// line limit or buffer size, in short lines.
+type C16LongCase struct {
+	LMTP     bool `json:"lmtp"`
+	Messages int  `json:"messages"`
+	Rcpts    int  `json:"rcpts"`
+	Lines    int  `json:"lines"`
+}
+
+func evalC16Long(c C16LongCase) *h.Finding {
+	var f *h.Finding
+	desc := fmt.Sprintf("long session lmtp=%t: %d messages x %d recipients x %d lines on one connection", c.LMTP, c.Messages, c.Rcpts, c.Lines)
+	be := &h.Backend{}
+	var bodies []string
+	leak, pan := h.Bubble(func() {
+		h.WithRealServer(h.Config{LMTP: c.LMTP}, be, false, func(cs *h.CS) {
+			cl := cs.Client
+			for m := 0; m < c.Messages; m++ {
+				if err := cl.Mail(fmt.Sprintf("sender%d@a.example", m), nil); err != nil {
+					f = h.F("c16-mail", "%s: Mail of message %d: %v", desc, m, err)
+					return
+				}
+				for r := 0; r < c.Rcpts; r++ {
+					if err := cl.Rcpt(fmt.Sprintf("r%d-%d@b.example", m, r), nil); err != nil {
+						f = h.F("c16-rcpt", "%s: Rcpt %d of message %d: %v", desc, r, m, err)
+						return
+					}
+				}
+				w, err := cl.Data()
+				if err != nil {
+					f = h.F("c16-data", "%s: Data of message %d: %v", desc, m, err)
+					return
+				}
+				var sb strings.Builder
+				for l := 0; l < c.Lines; l++ {
+					fmt.Fprintf(&sb, ".line %d of message %d\r\n", l, m)
+				}
+				bodies = append(bodies, sb.String())
+				if _, err := w.Write([]byte(sb.String())); err != nil {
+					f = h.F("c16-write", "%s: Write of message %d: %v", desc, m, err)
+					return
+				}
+				if err := w.Close(); err != nil {
+					f = h.F("c16-verdict", "%s: Close of message %d returned %v", desc, m, err)
+					return
+				}
+			}
+			if err := cl.Noop(); err != nil {
+				f = h.F("c16-out-of-step", "%s: Noop at the end: %v", desc, err)
+			}
+		})
+	})
+	if f != nil {
+		return f
+	}
+	if pan != "" {
+		return h.F("c16-harness-panic", "%s: %s", desc, pan)
+	}
+	if leak != "" {
+		return h.F("c16-deadlock", "%s: %.300s", desc, leak)
+	}
+	n := 0
+	for _, e := range be.Trace() {
+		if e.Kind == "Data" || e.Kind == "LMTPData" {
+			if n >= len(bodies) || string(e.Body) != bodies[n] || e.ReadErr != "EOF" || len(e.Rcpts) != c.Rcpts || e.From != fmt.Sprintf("sender%d@a.example", n) {
+				return h.F("c16-body-differs", "%s: message %d arrived as from=%q with %d recipients and %d octets (%s)", desc, n, e.From, len(e.Rcpts), len(e.Body), e.ReadErr)
+			}
+			n++
+		}
+	}
+	if n != c.Messages {
+		return h.F("c16-data-calls", "%s: %d messages arrived", desc, n)
+	}
+	return nil
+}
+
+func init() {
+	h.RegisterReplayer("c16", evalC16)
+	h.RegisterReplayer("c16-long", evalC16Long)
+}
 
 func C16(tier string) int {
 	run := h.NewRun("C16", tier, "exploration", "", 25*time.Minute)
@@ -213,7 +296,7 @@ func C16(tier string) int {
 		maxTok = 7
 	}
 	tokens := []string{".", "\n", "\r\n", "a"}
-	run.Rule = fmt.Sprintf("all message bodies of <=%d tokens over {'.', LF, CRLF, 'a'} (and the empty body) x partitions into Write calls {one Write, one octet per Write, every 2-split} x server verdict {accept, reject} x {SMTP, LMTP}, cycling through 5 envelopes (plain; '%' in sender and recipients; atext specials; the null sender; mixed case with recipients differing in case only and an address literal), each a complete real-client -> real-server conversation in a synctest bubble (a client waiting for a reply that never comes is reported by the runtime as a deadlock). Distinct by construction; non-trivial = body contains '.' or a line break. Oracle: backend octets == ref.DotStuffNormalize(body) then EOF; envelope as given; Close returns the server's verdict; a second Close returns an error, writes nothing and causes no reply; the connection stays in step. Every body also against a server with MaxMessageBytes = every value 1..message size (one Write, accepting backend): over the limit Close returns 552 and the backend never sees a complete message, at the limit the message arrives intact. Labelled supplement: seeded random 8-bit bodies.", maxTok)
+	run.Rule = fmt.Sprintf("all message bodies of <=%d tokens over {'.', LF, CRLF, 'a'} (and the empty body) x partitions into Write calls {one Write, one octet per Write, every 2-split} x server verdict {accept, reject} x {SMTP, LMTP}, cycling through 5 envelopes (plain; '%' in sender and recipients; atext specials; the null sender; mixed case with recipients differing in case only and an address literal), each a complete real-client -> real-server conversation in a synctest bubble (a client waiting for a reply that never comes is reported by the runtime as a deadlock). Distinct by construction; non-trivial = body contains '.' or a line break. Oracle: backend octets == ref.DotStuffNormalize(body) then EOF; envelope as given; Close returns the server's verdict; a second Close returns an error, writes nothing and causes no reply; the connection stays in step. Every body also against a server with MaxMessageBytes = every value 1..message size (one Write, accepting backend): over the limit Close returns 552 and the backend never sees a complete message, at the limit the message arrives intact. Long sessions: {12 messages x 3 recipients, 2 x 60, 3 messages of 400 lines, 40 short messages} over ONE connection (many times the line limit and the buffer sizes in both directions). Labelled supplement: seeded random 8-bit bodies.", maxTok)
 	run.Assumptions = []string{"CR occurs only as part of CRLF (as the statement requires)", "an empty body arrives as a single CRLF ('final CRLF ensured')"}
 	var bodies [][]byte
 	var rec func(cur []byte, n int)
@@ -309,5 +392,17 @@ func C16(tier string) int {
 		}
 	})
 	run.Counter("random_supplement", int64(len(rcs)))
+	// long sessions
+	var lcs []C16LongCase
+	for _, lmtp := range []bool{false, true} {
+		lcs = append(lcs, C16LongCase{LMTP: lmtp, Messages: 12, Rcpts: 3, Lines: 5}, C16LongCase{LMTP: lmtp, Messages: 2, Rcpts: 60, Lines: 2}, C16LongCase{LMTP: lmtp, Messages: 3, Rcpts: 2, Lines: 400}, C16LongCase{LMTP: lmtp, Messages: 40, Rcpts: 1, Lines: 1})
+	}
+	h.ParallelFor(len(lcs), func(i int) {
+		f := evalC16Long(lcs[i])
+		run.Eval(true)
+		if f != nil {
+			run.Violate("c16-long", lcs[i], f, func() *h.Finding { return evalC16Long(lcs[i]) })
+		}
+	})
 	return run.Finish()
 }
